@@ -620,7 +620,7 @@ def process_case(args):
         except Exception as e:  # noqa: BLE001
             res["real"].setdefault("mismatches", []).append(("correspondence-crash", f"history: {type(e).__name__}: {e}"))
         try:
-            heavy = any(st["op"] in ("func", "inline", "reffn") for st, *_ in L.walk(prog["nodes"]))
+            heavy = any(st["op"] in ("func", "reffn") or st.get("share") for st, *_ in L.walk(prog["nodes"]))
             if not prog.get("history") and obs.get("stage") != "construct" and (heavy or fam == "targeted" or idx % 4 == 0):
                 # the same program built once more in this process, on fresh objects: same bytes (or the same
                 # failure). A difference is a broken correspondence — something outlives a build.
@@ -871,8 +871,14 @@ def judge_model(prog, model, names, out_names):
             for g, r in zip(got, ref):
                 if g.shape != r.shape or g.dtype != r.dtype:
                     return ("results-differ", f"shape/dtype {g.shape}/{g.dtype} vs {r.shape}/{r.dtype}")
-                if not np.allclose(g, r, rtol=2e-3, atol=1e-3 * (1 + float(np.max(np.abs(r)))), equal_nan=True):
-                    return ("results-differ", f"max abs diff {float(np.max(np.abs(g - r))):.4g} (c={c})")
+                # non-finite entries (overflowing products) must sit at the same places; the tolerance is scaled
+                # by the largest FINITE reference value
+                fin = np.isfinite(r)
+                if not np.array_equal(fin, np.isfinite(g)) or not np.array_equal(np.isnan(r), np.isnan(g)):
+                    return ("results-differ", f"non-finite values at other places (c={c})")
+                scale = float(np.max(np.abs(r[fin]))) if fin.any() else 0.0
+                if not np.allclose(g[fin], r[fin], rtol=2e-3, atol=1e-3 * (1 + scale)):
+                    return ("results-differ", f"max abs diff {float(np.max(np.abs(g[fin] - r[fin]))):.4g} (c={c})")
             if "c" not in names:
                 break
     return None
@@ -1076,7 +1082,7 @@ def gen_programs(ck, escalate=False):
     as many programs of the two families that exercise adaptation hardest, whatever was changed."""
     rng = ck.rng
     progs = []
-    n = ck.pick(1050, 18000)
+    n = ck.pick(950, 16000)
     for i in range(n):
         r = rng.random()
         clean = r < 0.85
